@@ -267,6 +267,11 @@ func (b *Builder) flushChild() {
 		extraBytes := int(lenLen - 1)
 		if extraBytes != 0 {
 			child.add(make([]byte, extraBytes)...)
+			if child.err != nil {
+				// No room for the extra length bytes (fixed-size builder).
+				b.err = child.err
+				return
+			}
 			childStart := child.offset + child.pendingLenLen
 			copy(child.result[childStart+extraBytes:], child.result[childStart:])
 		}
